@@ -27,7 +27,7 @@ from .C14 import stmts_sx
 LEVEL = 'other'
 UNITS = ['src/pointset/algorithms/NormalAndCurvatureEstimation.cpp', 'src/pointset/KdTree.cpp']
 ENGINES = 'E-STATE + E-SIB over romea-facts'
-TECHNIQUE = 'a return in front of the neighbour query, outputs routed to the callee parameter of the same name, orientation helper evaluated (E-STEP) on points, unit eigenvectors and previous buffer entries of the homogeneous point types at three scales, inlined orientation factor on projections +1/-1/0, eigenvectors overwritten after the decomposition under a relative-gap threshold above the bound of the quantifier, result reuse keyed on a scalar signature of an index set, stored k against the constructor argument for k = 3..30, tolerance return in front of the eigen-decomposition, flip ordered against the object it acts on, closed-form eigen solver contract fact, sweep of every function read (and its in-repo callees) for frozen function-local statics, single precision inside double computations, lossy copy constructors, presence- or argument-keyed member caches, reference members bound to constructor arguments, loop accumulators that are members, members derived in the constructor and not refreshed by setters, results returned by reference to a member buffer, members filled from an argument under a condition that ignores it, hidden non-virtual base members, self-bound reference members, reductions that accumulate in float; coverage of the k neighbour indexes by each accumulation loop (loop control evaluated for k = 3, 4, 7, 30), identity-keyed kd-tree cache fact; E-STEP evaluation of guards in front of the per-point loop on witness cloud sizes (no early exit inside the quantifier), entries copied into the normal vs CARTESIAN_DIM; must-pass-through per loop iteration on the instantiated AST (flip after every normal write), structural index agreement of eigenvector/eigenvalue uses, sibling agreement of specialisations'
+TECHNIQUE = 'search parameters of the k-nearest query as a fact (a positive eps is an approximate search), a return in front of the neighbour query, outputs routed to the callee parameter of the same name, orientation helper evaluated (E-STEP) on points, unit eigenvectors and previous buffer entries of the homogeneous point types at three scales, inlined orientation factor on projections +1/-1/0, eigenvectors overwritten after the decomposition under a relative-gap threshold above the bound of the quantifier, result reuse keyed on a scalar signature of an index set, stored k against the constructor argument for k = 3..30, tolerance return in front of the eigen-decomposition, flip ordered against the object it acts on, closed-form eigen solver contract fact, sweep of every function read (and its in-repo callees) for frozen function-local statics, single precision inside double computations, lossy copy constructors, presence- or argument-keyed member caches, reference members bound to constructor arguments, loop accumulators that are members, members derived in the constructor and not refreshed by setters, results returned by reference to a member buffer, members filled from an argument under a condition that ignores it, hidden non-virtual base members, self-bound reference members, reductions that accumulate in float; coverage of the k neighbour indexes by each accumulation loop (loop control evaluated for k = 3, 4, 7, 30), identity-keyed kd-tree cache fact; E-STEP evaluation of guards in front of the per-point loop on witness cloud sizes (no early exit inside the quantifier), entries copied into the normal vs CARTESIAN_DIM; must-pass-through per loop iteration on the instantiated AST (flip after every normal write), structural index agreement of eigenvector/eigenvalue uses, sibling agreement of specialisations'
 EXPLANATION = ('Each compute() overload of each instantiation is read as an ordered statement list: the flip call post-dominates the normal write inside the iteration, delegating overloads pass their '
                'arguments through, eigenvector/eigenvalue indexes and the neighbour bookkeeping are matched structurally.')
 ASSUMPTIONS = ['Eigen::SelfAdjointEigenSolver returns eigenvalues in increasing order and column-major eigenvectors']
